@@ -22,7 +22,11 @@
 //!           F10 (bool / number bypass it) is recognised by shape, anything else is reported;
 //!       O6  the autoescape flag of `render_component` decides for the component, the templates it
 //!           includes and the components those call, whatever their names say.
-//! Engine-only streams: W (every builtin filter / test / function / operator / statement on the
+//! Engine-only streams: V (every public way of making a string `Value` — `From<char | &str | String |
+//! Cow | Key | Option>`, serde, collections of chars, custom filters / functions of every string-like
+//! return type — × texts of 0 … 200 bytes around the 21 / 22-byte inline / heap boundary × every mint
+//! point: registered-safe filters and functions, `call_filter`, `| safe`, captures, component results /
+//! bodies / arguments, `super()`, pre-marked context values, the API `body`), W (every builtin filter / test / function / operator / statement on the
 //! hostile context under O1), X (the escaper itself over every short string of special, neighbouring
 //! and multi-byte characters: called directly, through both sinks, a capture, a filter and a loop,
 //! against the five-replacement reference and the Lean `escapeHtml`), and the scalar-alphabet
@@ -1333,6 +1337,9 @@ fn ctx_wire(m: &BTreeMap<String, Value>) -> BTreeMap<String, String> {
 
 /// the same body rendered inline and routed as-is through capture / component body / component
 /// result / super(): all five outputs must be identical
+/// components that print an argument as is
+const PASS_DEFS: &str = "{% component pass(a) %}{{ a }}{% endcomponent pass %}{% component pass_t(a: string) %}{{ a }}{% endcomponent pass_t %}{% component pass_d(a = \"dflt\") %}{{ a }}{% endcomponent pass_d %}{% component pass_r(...rest) %}{{ rest.a }}{% endcomponent pass_r %}{% component pass2(a) %}{{ <pass a={a}/> }}{% endcomponent pass2 %}{% component fwd() %}{{ <pass a={body}/> }}{% endcomponent fwd %}";
+
 fn no_double_escape(data: &str, lit: &str, ae: bool) -> Result<u64, String> {
     let sfx = if ae { ".html" } else { ".txt" };
     let body = format!("{lit}{{{{ d }}}}{lit}");
@@ -1361,6 +1368,50 @@ fn no_double_escape(data: &str, lit: &str, ae: bool) -> Result<u64, String> {
             mk(
                 vec![(format!("c{sfx}"), format!("{{% component show(d) %}}{body}{{% endcomponent show %}}"))],
                 "{{ <show d={d}/> }}".to_string(),
+            ),
+        ),
+        // engine-escaped text handed on as a component ARGUMENT (declared, typed, defaulted, through
+        // the rest map, through a spread, through the body of another call) is printed as is
+        (
+            "capture-as-argument",
+            mk(vec![(format!("c{sfx}"), PASS_DEFS.into())], format!("{{% set v %}}{body}{{% endset %}}{{{{ <pass a={{v}}/> }}}}")),
+        ),
+        (
+            "capture-as-typed-argument",
+            mk(vec![(format!("c{sfx}"), PASS_DEFS.into())], format!("{{% set v %}}{body}{{% endset %}}{{{{ <pass_t a={{v}}/> }}}}")),
+        ),
+        (
+            "capture-as-defaulted-argument",
+            mk(vec![(format!("c{sfx}"), PASS_DEFS.into())], format!("{{% set v %}}{body}{{% endset %}}{{{{ <pass_d a={{v}}/> }}}}")),
+        ),
+        (
+            "capture-as-rest-argument",
+            mk(vec![(format!("c{sfx}"), PASS_DEFS.into())], format!("{{% set v %}}{body}{{% endset %}}{{{{ <pass_r a={{v}}/> }}}}")),
+        ),
+        (
+            "capture-as-spread-argument",
+            mk(vec![(format!("c{sfx}"), PASS_DEFS.into())], format!("{{% set v %}}{body}{{% endset %}}{{% set kw = {{\"a\": v}} %}}{{{{ <pass {{...kw}}/> }}}}")),
+        ),
+        (
+            "capture-as-argument-twice",
+            mk(vec![(format!("c{sfx}"), PASS_DEFS.into())], format!("{{% set v %}}{body}{{% endset %}}{{{{ <pass2 a={{v}}/> }}}}")),
+        ),
+        (
+            "component-result-as-argument",
+            mk(
+                vec![(format!("c{sfx}"), format!("{{% component show(d) %}}{body}{{% endcomponent show %}}{PASS_DEFS}"))],
+                "{% set r = <show d={d}/> %}{{ <pass a={r}/> }}".to_string(),
+            ),
+        ),
+        (
+            "component-body-as-argument",
+            mk(vec![(format!("c{sfx}"), PASS_DEFS.into())], format!("{{% <fwd> %}}{body}{{% </fwd> %}}")),
+        ),
+        (
+            "super-as-argument",
+            mk(
+                vec![(format!("base{sfx}"), format!("{{% block b %}}{body}{{% endblock b %}}")), (format!("c{sfx}"), PASS_DEFS.into())],
+                format!("{{% extends \"base{sfx}\" %}}{{% block b %}}{{% set s = super() %}}{{{{ <pass a={{s}}/> }}}}{{% endblock b %}}"),
             ),
         ),
         (
@@ -1504,6 +1555,234 @@ fn escaper_stream(exe: &std::path::Path, max_len: usize, report: &mut Report) ->
     first
 }
 
+// ------------------------------------------------------------------ stream V: how a string gets to be a Value, and how long it is
+
+/// hostile ASCII text of exactly `n` bytes (the engine keeps strings of ≤ 21 bytes inline and longer
+/// ones on the heap: both representations, and the boundary, must behave alike)
+fn hostile_of_len(n: usize) -> String {
+    "<&>\"'x<i>\"&amp;'".chars().cycle().take(n).collect()
+}
+
+struct SafeId;
+impl tera::Filter<String, String> for SafeId {
+    fn call(&self, v: String, _: tera::Kwargs, _: &tera::State) -> String {
+        v
+    }
+    fn is_safe(&self) -> bool {
+        true
+    }
+}
+struct SafeIdValue;
+impl tera::Filter<Value, Value> for SafeIdValue {
+    fn call(&self, v: Value, _: tera::Kwargs, _: &tera::State) -> Value {
+        v
+    }
+    fn is_safe(&self) -> bool {
+        true
+    }
+}
+struct FnSafeId;
+impl tera::Function<String> for FnSafeId {
+    fn call(&self, kw: tera::Kwargs, _: &tera::State) -> String {
+        kw.get::<String>("v").ok().flatten().unwrap_or_default()
+    }
+    fn is_safe(&self) -> bool {
+        true
+    }
+}
+
+#[derive(Serialize)]
+struct SerdeCarrier {
+    c: char,
+    s: String,
+    cs: Vec<char>,
+    o: Option<String>,
+}
+
+fn value_stream(report: &mut Report) -> Option<(String, serde_json::Value)> {
+    use std::borrow::Cow;
+    let mut first: Option<(String, serde_json::Value)> = None;
+    let mut tera = Tera::default();
+    tera.register_filter("safe_id", SafeId);
+    tera.register_filter("safe_idv", SafeIdValue);
+    tera.register_function("fsafe_id", FnSafeId);
+    tera.register_filter("via_safe_id", |v: Value, _: tera::Kwargs, st: &tera::State| st.call_filter("safe_id", &v, tera::Kwargs::default()));
+    tera.register_filter("raw_id", |v: String, _: tera::Kwargs, _: &tera::State| v);
+    // custom filters / functions returning each string-like type
+    tera.register_filter("r_char", |v: &str, _: tera::Kwargs, _: &tera::State| v.chars().next().unwrap_or('<'));
+    tera.register_filter("r_string", |v: &str, _: tera::Kwargs, _: &tera::State| v.to_string());
+    tera.register_filter("r_static", |_: &str, _: tera::Kwargs, _: &tera::State| "<static>&'\"");
+    tera.register_filter("r_cow", |v: &str, _: tera::Kwargs, _: &tera::State| -> Cow<'static, str> { Cow::Owned(v.to_string()) });
+    tera.register_filter("r_opt", |v: &str, _: tera::Kwargs, _: &tera::State| Some(v.to_string()));
+    tera.register_filter("r_chars", |v: &str, _: tera::Kwargs, _: &tera::State| v.chars().collect::<Vec<char>>());
+    tera.register_filter("r_key", |v: &str, _: tera::Kwargs, _: &tera::State| tera::value::Key::from(v.to_string()));
+    tera.register_filter("r_result", |v: &str, _: tera::Kwargs, _: &tera::State| -> tera::TeraResult<char> { Ok(v.chars().last().unwrap_or('>')) });
+    tera.register_function("g_char", |kw: tera::Kwargs, _: &tera::State| kw.get::<String>("v").ok().flatten().and_then(|s| s.chars().next()).unwrap_or('\''));
+    tera.register_function("g_string", |kw: tera::Kwargs, _: &tera::State| kw.get::<String>("v").ok().flatten().unwrap_or_default());
+    tera.register_function("g_chars", |kw: tera::Kwargs, _: &tera::State| kw.get::<String>("v").ok().flatten().unwrap_or_default().chars().collect::<Vec<char>>());
+    let tpls: Vec<(&str, &str)> = vec![
+        // value as it is (both sinks, and moved around)
+        ("path.html", "{{ v }}"),
+        ("top.html", "{{ v | default(value=1) }}"),
+        ("loop.html", "{% for x in [v] %}{{ x }}{% endfor %}"),
+        ("set.html", "{% set y = v %}{{ y }}"),
+        ("comp.html", "{{ <pass a={v}/> }}"),
+        ("defs.html", PASS_DEFS),
+        // registered safe: verbatim
+        ("safe_filter.html", "{{ v | safe_id }}"),
+        ("safe_filter_value.html", "{{ v | safe_idv }}"),
+        ("safe_function.html", "{{ fsafe_id(v=v) }}"),
+        ("safe_via_call_filter.html", "{{ v | via_safe_id }}"),
+        ("safe_builtin.html", "{{ v | safe }}"),
+        ("safe_then_moved.html", "{% set y = v | safe_id %}{% for x in [y] %}{{ <pass a={x}/> }}{% endfor %}"),
+        ("safe_captured.html", "{% set c %}{{ v | safe_id }}{% endset %}{{ c }}"),
+        ("safe_sliced.html", "{% set y = v | safe_id %}{{ y[0:] }}"),
+        ("safe_as_argument.html", "{{ <pass a={v | safe}/> }}|{{ <pass_t a={v | safe_id}/> }}|{{ <pass_r a={v | safe}/> }}"),
+        // not registered safe: escaped once
+        ("raw_filter.html", "{{ v | raw_id }}"),
+        ("captured.html", "{% set c %}{{ v }}{% endset %}{{ c }}"),
+        // results of custom filters / functions of every string-like return type
+        ("r_char.html", "{{ v | r_char }}"),
+        ("r_string.html", "{{ v | r_string }}"),
+        ("r_static.html", "{{ v | r_static }}"),
+        ("r_cow.html", "{{ v | r_cow }}"),
+        ("r_opt.html", "{{ v | r_opt }}"),
+        ("r_chars.html", "{% for c in v | r_chars %}{{ c }}{% endfor %}"),
+        ("r_key.html", "{{ v | r_key }}"),
+        ("r_result.html", "{{ v | r_result }}"),
+        ("g_char.html", "{{ g_char(v=v) }}"),
+        ("g_string.html", "{{ g_string(v=v) }}"),
+        ("g_chars.html", "{% for c in g_chars(v=v) %}{{ c }}{% endfor %}"),
+    ];
+    if let Err(e) = tera.add_raw_templates(tpls.clone()) {
+        return Some((format!("value stream: templates do not register: {e:?}"), serde_json::json!({"value_stream": "add"})));
+    }
+    let mut texts: Vec<String> = ["<", ">", "&", "\"", "'", "é<", "日>'"].iter().map(|s| s.to_string()).collect();
+    for n in [0usize, 1, 2, 19, 20, 21, 22, 23, 24, 40, 64, 200] {
+        texts.push(hostile_of_len(n));
+    }
+    texts.push("a<b\nc>d\r\n'e'\t\"f\"  ".to_string());
+    let check = |what: &str, got: Result<String, tera::Error>, want: String, text: &str, report: &mut Report, first: &mut Option<(String, serde_json::Value)>| {
+        report.oracle_checks += 1;
+        let got = got.unwrap_or_else(|e| format!("error {e:?}"));
+        if got != want {
+            report.oracle_failures += 1;
+            if first.is_none() {
+                *first = Some((format!("value stream: {what} with the {}-byte text {text:?}: got {got:?}, must be {want:?}", text.len()), serde_json::json!({"value_stream": what, "text": text})));
+            }
+        }
+    };
+    for t in &texts {
+        let esc = reference_escape(t);
+        // every public way of making a string Value
+        let mut makes: Vec<(&str, Value)> = vec![
+            ("Value::from(&str)", Value::from(t.as_str())),
+            ("Value::from(String)", Value::from(t.clone())),
+            ("Value::from(Cow::Borrowed)", Value::from(Cow::Borrowed(t.as_str()))),
+            ("Value::from(Cow::Owned)", Value::from(Cow::<str>::Owned(t.clone()))),
+            ("Value::normal_string", Value::normal_string(t)),
+            ("Value::from(Key::from(String))", Value::from(tera::value::Key::from(t.clone()))),
+            ("Key::as_value", tera::value::Key::from(t.clone()).as_value()),
+            ("Value::from(Some(String))", Value::from(Some(t.clone()))),
+            ("Value::from_serializable(&str)", Value::from_serializable(t.as_str())),
+            ("Value::from_serializable(&String)", Value::from_serializable(t)),
+        ];
+        let mut chars = t.chars();
+        if let (Some(c), None) = (chars.next(), chars.next()) {
+            makes.push(("Value::from(char)", Value::from(c)));
+            makes.push(("Value::from(Some(char))", Value::from(Some(c))));
+            makes.push(("Value::from_serializable(&char)", Value::from_serializable(&c)));
+        }
+        report.evaluations += 1;
+        for (how, v) in &makes {
+            for tpl in ["path.html", "top.html", "loop.html", "set.html", "comp.html", "raw_filter.html", "captured.html"] {
+                let mut ctx = Context::new();
+                ctx.insert_value("v", v.clone());
+                check(&format!("{how} printed by {tpl}"), tera.render(tpl, &ctx), esc.clone(), t, report, &mut first);
+            }
+        }
+        // collections of chars / strings, serde carriers, Context::insert (serde)
+        {
+            let cs: Vec<char> = t.chars().collect();
+            let want: String = cs.iter().map(|c| reference_escape(&c.to_string())).collect();
+            let mut ctx = Context::new();
+            ctx.insert_value("v", Value::from(cs.clone()));
+            check("Value::from(Vec<char>) looped", tera.render_str("{% for c in v %}{{ c }}{% endfor %}", &ctx, true), want.clone(), t, report, &mut first);
+            let carrier = SerdeCarrier { c: cs.first().copied().unwrap_or('<'), s: t.clone(), cs: cs.clone(), o: Some(t.clone()) };
+            let mut ctx = Context::new();
+            ctx.insert("v", &carrier);
+            check(
+                "serde struct with char / String / Vec<char> / Option fields (Context::insert)",
+                tera.render_str("{{ v.c }}|{{ v.s }}|{% for c in v.cs %}{{ c }}{% endfor %}|{{ v.o }}", &ctx, true),
+                format!("{}|{esc}|{want}|{esc}", reference_escape(&carrier.c.to_string())),
+                t,
+                report,
+                &mut first,
+            );
+            let mut ctx = Context::new();
+            ctx.insert("v", t);
+            check("Context::insert(&String)", tera.render("path.html", &ctx), esc.clone(), t, report, &mut first);
+            let mut hm = std::collections::HashMap::new();
+            hm.insert("k".to_string(), t.as_str());
+            let mut ctx = Context::new();
+            ctx.insert_value("v", Value::from(hm));
+            check("Value::from(HashMap<String, &str>)", tera.render_str("{{ v.k }}", &ctx, true), esc.clone(), t, report, &mut first);
+        }
+        // registered safe / marked safe: verbatim, whatever the length
+        let mut ctx = Context::new();
+        ctx.insert_value("v", Value::from(t.as_str()));
+        for tpl in ["safe_filter.html", "safe_filter_value.html", "safe_function.html", "safe_via_call_filter.html", "safe_builtin.html", "safe_then_moved.html", "safe_captured.html", "safe_sliced.html"] {
+            check(&format!("registered / marked safe, {tpl}"), tera.render(tpl, &ctx), t.clone(), t, report, &mut first);
+        }
+        check("safe value as component argument", tera.render("safe_as_argument.html", &ctx), format!("{t}|{t}|{t}"), t, report, &mut first);
+        // a context value pre-marked safe by the embedding program, and the API `body`
+        let mut sctx = Context::new();
+        sctx.insert_value("v", Value::safe_string(t));
+        for tpl in ["path.html", "top.html", "loop.html", "comp.html", "captured.html"] {
+            check(&format!("Value::safe_string in the context, {tpl}"), tera.render(tpl, &sctx), t.clone(), t, report, &mut first);
+        }
+        let mut actx = Context::new();
+        actx.insert_value("a", Value::from(t.as_str()));
+        check("render_component(pass, a = normal string, autoescape)", tera.render_component("pass", &actx, None, true), esc.clone(), t, report, &mut first);
+        check("render_component(fwd, body = text, autoescape)", tera.render_component("fwd", &Context::new(), Some(t), true), t.clone(), t, report, &mut first);
+        // custom filters / functions by return type: escaped (none of them is registered safe)
+        let firstc = t.chars().next().unwrap_or('<').to_string();
+        let lastc = t.chars().last().unwrap_or('>').to_string();
+        let per_char: String = t.chars().map(|c| reference_escape(&c.to_string())).collect();
+        for (tpl, want) in [
+            ("r_char.html", reference_escape(&firstc)),
+            ("r_string.html", esc.clone()),
+            ("r_static.html", reference_escape("<static>&'\"")),
+            ("r_cow.html", esc.clone()),
+            ("r_opt.html", esc.clone()),
+            ("r_chars.html", per_char.clone()),
+            ("r_key.html", esc.clone()),
+            ("r_result.html", reference_escape(&lastc)),
+            ("g_char.html", reference_escape(&if t.is_empty() { "'".to_string() } else { firstc.clone() })),
+            ("g_string.html", esc.clone()),
+            ("g_chars.html", per_char.clone()),
+        ] {
+            check(&format!("custom builtin by return type, {tpl}"), tera.render(tpl, &ctx), want, t, report, &mut first);
+        }
+        // mint points over every length (no double escaping; with and without literal text)
+        for ae in [true, false] {
+            for lit in ["", "L:"] {
+                match no_double_escape(t, lit, ae) {
+                    Ok(n) => report.oracle_checks += n,
+                    Err(e) => {
+                        report.oracle_failures += 1;
+                        if first.is_none() {
+                            first = Some((format!("O4 no-double-escape ({}-byte data): {e}", t.len()), serde_json::json!({"double_escape": {"data": t, "lit": lit, "autoescape": ae}})));
+                        }
+                    }
+                }
+            }
+        }
+    }
+    report.count_n("values.texts", texts.len() as u64);
+    first
+}
+
 // ------------------------------------------------------------------ stream W: every builtin, engine only
 
 struct MkSafe;
@@ -1589,7 +1868,60 @@ fn wide_stream(contexts: &[BTreeMap<String, Value>], report: &mut Report) -> Opt
     tera.register_filter("mksafe", MkSafe);
     tera.register_function("fraw", |kw: tera::Kwargs, _: &tera::State| format!("<f>{}", kw.get::<String>("v").ok().flatten().unwrap_or_default()));
     tera.register_function("fsafe", FnSafe);
-    let tpls = wide_templates();
+    let mut tpls = wide_templates();
+    // every registered filter / function must be exercised: whatever the list above does not mention
+    // (a builtin added later) is applied bare to a string, an array, a map and a number
+    let (reg_filters, _reg_tests, reg_functions) = tera::verif_hooks::registered_builtins(&tera);
+    for f in &reg_filters {
+        if f == "safe" || f == "mksafe" {
+            continue;
+        }
+        let mentioned = tpls.iter().any(|t| t.contains(&format!("| {f} ")) || t.contains(&format!("| {f}(")) || t.contains(&format!("filter {f} ")) || t.contains(&format!("filter {f}(")));
+        if !mentioned {
+            report.count("wide.filter-not-in-the-list");
+            for recv in ["s1", "arr", "m", "n", "nest.inner.list"] {
+                tpls.push(format!("{{{{ {recv} | {f} }}}}"));
+            }
+        }
+    }
+    for g in &reg_functions {
+        if g == "fsafe" {
+            continue;
+        }
+        if !tpls.iter().any(|t| t.contains(&format!("{g}("))) {
+            report.count("wide.function-not-in-the-list");
+            tpls.push(format!("{{{{ {g}() }}}}"));
+            tpls.push(format!("{{{{ {g}(v=s1) }}}}"));
+        }
+    }
+    report.count_n("wide.registered-filters", reg_filters.len() as u64);
+    // besides the hostile contexts: the same with white space, line ends, tabs, padding and mixed case
+    // inside the strings (trigger characters of newlines_to_br, trim, title, capitalize, indent,
+    // truncate, wordcount, split …)
+    let ws_strings = [
+        "a<b\nc>d",
+        "x\r\n<y>\t'z'",
+        "  <Lead And> \"Trail\"  ",
+        "\n<\n>\n",
+        "mIxEd <Case> wOrDs & 'more'\r",
+        "one two<three\nfour>five six seven eight nine ten eleven",
+        "\t<tab>\t",
+        "<\r>",
+    ];
+    let mut all_contexts: Vec<BTreeMap<String, Value>> = contexts.to_vec();
+    for k in 0..4 {
+        let mut c = contexts[k % contexts.len()].clone();
+        let w = |i: usize| ws_strings[(k * 3 + i) % ws_strings.len()];
+        c.insert("s1".into(), Value::from(w(0)));
+        c.insert("s2".into(), Value::from(w(1)));
+        c.insert("arr".into(), Value::from(vec![Value::from(w(2)), Value::from(w(3)), Value::from(w(4))]));
+        let mut mp = tera::Map::new();
+        mp.insert("k".into(), Value::from(w(5)));
+        mp.insert("q\"<".into(), Value::from(w(6)));
+        c.insert("m".into(), Value::from(mp));
+        all_contexts.push(c);
+    }
+    let contexts = &all_contexts[..];
     let mut names = Vec::new();
     for (i, t) in tpls.iter().enumerate() {
         let name = format!("w{i}.html");
@@ -1843,6 +2175,10 @@ fn main() {
             let mut ctx = Context::new();
             ctx.insert("v", sv);
             println!("string: {sv:?}\nescape_html: {:?}\n{{{{ v }}}} autoescaped: {:?}\nreference: {:?}\nmodel: {:?}", String::from_utf8_lossy(&buf), Tera::one_off("{{ v }}", &ctx, true), reference_escape(sv), driver::run_batch(&exe, &[format!("esc {}", hex(sv.as_bytes()))]));
+            return;
+        }
+        if j.get("value_stream").is_some() {
+            println!("value stream (deterministic), first failure: {:?}", value_stream(&mut report));
             return;
         }
         if let Some(d) = j.get("wide") {
@@ -2174,6 +2510,11 @@ fn main() {
     }
     if let Some((e, r)) = o4_fail {
         report.violation("property", format!("O4 no-double-escape: {e}"), r);
+    }
+
+    // stream V: constructions of string values, representations (inline / heap), mint points
+    if let Some((msg, r)) = value_stream(&mut report) {
+        report.violation("property", msg, r);
     }
 
     // stream X: the escaper itself
